@@ -179,6 +179,9 @@ class CfgInfo(object):
         return lines
 
 
+PROBING = False
+
+
 class Tracer(object):
     def __init__(self, env, info, session=None):
         self.env = env
@@ -219,13 +222,36 @@ class Tracer(object):
     def pk_of(self, obj, cname):
         return [dec_val(getattr(obj, k)) for k in self.info.pk_attrs[cname]]
 
-    def vals_of(self, obj, cname):
-        out = []
-        for k in self.info.attrs[cname]:
-            try:
-                out.append(dec_val(getattr(obj, k)))
-            except (sa.orm.exc.ObjectDeletedError, KeyError):
+    def vals_of(self, obj, cname, connection=None):
+        """the values the object's row holds, WITHOUT touching the object's load state (an ORM attribute access would
+        load expired / deferred / never-set attributes and hide exactly the situations in which continuum has to
+        load them itself): what is in the instance dict is taken from there, the rest is read from the row with
+        a Core statement on the flush's connection (None if the row is gone or no connection is given)"""
+        st = sa.inspect(obj)
+        attrs = self.info.attrs[cname]
+        out, missing = [], []
+        for k in attrs:
+            if k in st.dict:
+                out.append(dec_val(st.dict[k]))
+            else:
                 out.append(None)
+                missing.append(k)
+        if missing and connection is not None:
+            m = st.mapper
+            global PROBING
+            PROBING = True          # the recorder's own statement: not a statement of the program (fault injection skips it)
+            try:
+                ident = st.identity if st.identity is not None else m.primary_key_from_instance(obj)
+                row = connection.execute(
+                    sa.select(*[m.get_property(k).columns[0] for k in missing]).select_from(m.selectable).where(
+                        sa.and_(*[c == v for c, v in zip(m.primary_key, ident)]))).first()
+            except Exception:
+                row = None
+            finally:
+                PROBING = False
+            if row is not None:
+                for k, v in zip(missing, row):
+                    out[attrs.index(k)] = dec_val(v)
         return out
 
     def col_flags(self, obj, cname):
@@ -339,7 +365,7 @@ class Tracer(object):
         if cn is None:
             return
         self.emit('ev ins %d %s %s %s' % (self.info.cid[cn], fmt_list(self.pk_of(target, cn)),
-                                          fmt_vals(self.vals_of(target, cn)), fmt_bools(self.col_flags(target, cn))))
+                                          fmt_vals(self.vals_of(target, cn, connection)), fmt_bools(self.col_flags(target, cn))))
 
     def on_update(self, mapper, connection, target):
         cn = self.cname(target)
@@ -347,20 +373,8 @@ class Tracer(object):
             return
         st = sa.inspect(target)
         ck = set(st.committed_state.keys())
-        vals = self.vals_of(target, cn)
-        if st.pending:
-            # SQLAlchemy's "row switch": an object deleted and another one with the same key added in ONE flush become
-            # an UPDATE of the old row; the columns the new (still pending) object never set keep the old row's
-            # values although the object shows None for them: the event reports what the row holds
-            m = st.mapper
-            missing = [k for k in self.info.attrs[cn] if k not in st.dict]
-            if missing:
-                row = connection.execute(
-                    sa.select(*[m.get_property(k).columns[0] for k in missing]).select_from(m.selectable).where(
-                        sa.and_(*[c == v for c, v in zip(m.primary_key, m.primary_key_from_instance(target))]))).first()
-                if row is not None:
-                    for k, v in zip(missing, row):
-                        vals[self.info.attrs[cn].index(k)] = dec_val(v)
+        # (covers SQLAlchemy's "row switch" too: the columns a still pending object never set are read from the row)
+        vals = self.vals_of(target, cn, connection)
         self.emit('ev upd %d %s %s %s %s %s %s' % (
             self.info.cid[cn], fmt_list(self.pk_of(target, cn)), fmt_vals(vals),
             fmt_bools(self.col_flags(target, cn)), fmt_bools(self.rel_flags(target, cn)),
@@ -372,7 +386,7 @@ class Tracer(object):
         if cn is None:
             return
         self.emit('ev del %d %s %s' % (self.info.cid[cn], fmt_list(self.pk_of_deleted(target, cn)),
-                                       fmt_vals(self.vals_of(target, cn))))
+                                       fmt_vals(self.vals_of(target, cn, connection))))
 
     def pk_of_deleted(self, obj, cname):
         ident = sa.inspect(obj).identity
